@@ -1,16 +1,41 @@
-import sys, json
-sys.path.insert(0,'/verif')
+"""Writes replay files for known / fixed findings under replays/known/ (run by hand when an entry is added)."""
+import sys, json, os
+sys.path.insert(0, '/verif')
 from simkit import kernel
 from simkit.kernel import execute, NoFindings
 from simkit.main import load_spec
-def mk(prop, fid, cfg, ops):
-    spec=load_spec(prop)
-    r=execute(spec["engine"], prop, cfg=cfg, ops=ops, findings=NoFindings())
-    assert r.violation is not None, (fid, r.harness_error)
-    path=f"/verif/replays/known/{fid}.json"
-    kernel.write_replay(path, spec["engine"].name, prop, None, cfg, ops, r.violation, extra={"ignore_findings": True, "finding_id": fid})
-    print(fid, r.violation)
-if __name__=="__main__":
-    mk("C01","C01-row-group-mutation",{"max_steps":40},[
-     {"op":"init","family":"rle","attached":False,"spec":{"cols":[{}],"rows":[{"cells":[{"v":1}]},{"cells":[{"v":2}]}],"string_attr":True,"header_rows":1}},
-     {"op":"set_row","y":0,"row":{"cells":[{"v":3}]}}])
+
+
+def mk(prop, fid, ops, cfg=None, expect="violation"):
+    cfg = cfg or {"max_steps": 40}
+    spec = load_spec(prop)
+    r = execute(spec["engine"], prop, cfg=cfg, ops=ops, findings=NoFindings())
+    assert not r.harness_error, (fid, r.harness_error)
+    if expect == "violation":
+        assert r.violation is not None, fid
+    else:
+        assert r.violation is None, (fid, r.violation)
+    path = f"/verif/replays/known/{fid}.json"
+    kernel.write_replay(path, spec["engine"].name, prop, None, cfg, ops, r.violation, extra={"ignore_findings": True, "finding_id": fid, "expect": expect})
+    print(fid, expect, r.violation)
+
+
+RLE = lambda rows, cols=None, **kw: {"op": "init", "family": "rle", "attached": False, "spec": dict({"cols": cols or [], "rows": rows, "string_attr": True}, **kw)}
+FULL = {"level": "full"}
+
+if __name__ == "__main__":
+    which = sys.argv[1:] 
+    E = {}
+    E["C01-row-group-mutation"] = ("C01", [RLE([{"cells": [{"v": 1}]}, {"cells": [{"v": 2}]}], header_rows=1), {"op": "set_row", "y": 0, "row": {"cells": [{"v": 3}]}}], "violation")
+    E["fixed-C01-append_cell-repeated-row"] = ("C01", [RLE([{"cells": [{"v": 1}], "r": 3}]), {"op": "append_cell", "y": 1, "cell": {"v": 2}, "obs": FULL}], "pass")
+    E["fixed-C01-delete_cell-repeated-row"] = ("C01", [RLE([{"cells": [{"v": 1}], "r": 3}]), {"op": "delete_cell", "c": {"x": 0, "y": 1}, "obs": FULL}], "pass")
+    E["fixed-C01-column-edit-stale-row-cache"] = ("C01", [{"op": "init", "family": "prefilled", "attached": False, "w": 2, "h": 2}, {"op": "set_value", "c": {"x": 1, "y": 1}, "v": 5, "obs": FULL}, {"op": "insert_column", "x": 0, "col": None, "obs": FULL}, {"op": "delete_column", "x": 1, "obs": FULL}], "pass")
+    E["fixed-C01-delete_column-short-rows"] = ("C01", [RLE([{"cells": [{"v": 1}, {"v": 2}, {"v": 3}]}, {"cells": [{"v": 4}, {"v": 5}]}], cols=[{"r": 3}]), {"op": "delete_column", "x": 0, "obs": FULL}], "pass")
+    E["fixed-C01-set-repeated-over-next-runs"] = ("C01", [RLE([{"cells": [{"v": 1}]}, {"cells": [{"v": 2}]}, {"cells": [{"v": 3}], "r": 3}]), {"op": "set_row", "y": 0, "row": {"cells": [{"v": 9}], "r": 3}, "obs": FULL}], "pass")
+    E["C02-live-row-repeated-setter"] = ("C02", [RLE([{"cells": [{"v": 1}]}, {"cells": [{"v": 2}]}]), {"op": "live_row_rep", "y": 0, "k": 2, "obs": FULL}], "violation")
+    E["C02-live-cell-repeated-setter"] = ("C02", [RLE([{"cells": [{"v": 1}, {"v": 2}]}]), {"op": "live_cell_rep", "c": {"x": 0, "y": 0}, "k": 2, "obs": FULL}], "violation")
+    E["fixed-C07-extend_rows-no-columns"] = ("C07", [{"op": "init", "family": "empty", "attached": False}, {"op": "extend_rows", "rows": [{"cells": []}], "obs": FULL}], "pass")
+    for fid, (prop, ops, expect) in E.items():
+        if which and fid not in which:
+            continue
+        mk(prop, fid, ops, expect=expect)
